@@ -71,7 +71,7 @@ Definition word_tok (w : list ascii) (suf : suffix) : token :=
   match word_class w, suf with
   | WLower, SufNone => TWord (unchars w)
   | WLower, SufSort s => TFun (unchars w) s
-  | WLower, SufBare => TBad
+  | WLower, SufBare => TFunBare (unchars w)
   | WUpper, SufNone => TVar (unchars w) SGeneral
   | WUpper, SufSort s => TVar (unchars w) s
   | WUpper, SufBare => TVar (unchars w) SInteger
